@@ -5,7 +5,7 @@ use crate::dd::Dd;
 use crate::fam::*;
 use ddo::*;
 use std::collections::{HashMap, HashSet};
-use symx_int::{note, observe, CostLike};
+use symx_int::{note, oblige, observe, Cond, CostLike};
 
 #[derive(Debug, Clone)]
 struct NodeDecl {
@@ -257,6 +257,8 @@ pub fn check<D: Dd>(dd: &D, t: &Table, all: bool, has_value: bool) {
                 fail("node-label", "node label does not show the state".into());
             }
         }
+        // structural obligation: this rendering is well formed and faithful for every cost vector following this path
+        oblige("C20:dot-faithful", Cond::TRUE);
         for cl in p.clusters.iter() {
             for id in cl {
                 if !known.contains(id) {
